@@ -162,16 +162,51 @@ def run_table(spec, b, client, w):
     return violations, nreq_total, len(variants), ncells
 
 
+def run_large(acc, tier):
+    """tables far larger than the small scope (the number of requests of a
+    fetch must not matter): 1 column x 800 rows and 3 x 300, by GETNEXT and
+    by GETBULK with bulk size 1 and 10"""
+    client, _ = world.make_client(creds(), lambda p: b"")
+    T = TABLES[0]
+    ENTRY = T + (1,)
+    for ncols, nrows in ((1, 800), (3, 300)) if tier == "quick" else ((1, 800), (3, 300), (2, 1500)):
+        db = {BEFORE[0]: BEFORE[1], AFTER[0]: AFTER[1]}
+        for c in range(1, ncols + 1):
+            for r in range(1, nrows + 1):
+                db[ENTRY + (c, r)] = ("int", c * 100000 + r)
+        want = expected_rows(db, ENTRY)
+        for variant, bulk in (("table", None), ("bulktable", 1), ("bulktable", 10)):
+            ag = ragent.Agent(db)
+            client.sender.handle = ag.handle
+            client.sender.calls = []
+            client.sender.limit = len(db) + 10
+            try:
+                got, exc = ops.run_op(client, ("table", ENTRY) if variant == "table" else ("bulktable", T, bulk))
+            except world.Horizon as hz:
+                got, exc = None, hz
+            facts = {"family": "large", "columns": ncols, "rows": nrows, "variant": variant, "bulk": bulk, "requests": len(ag.log)}
+            acc.count(evaluations=1, nontrivial=1, states=1, transitions=len(ag.log), traces=1)
+            ok = exc is None and got == want
+            acc.outcome("ok" if ok else "large-table-wrong")
+            if not ok:
+                kind = "table-fetch-raised" if exc is not None else "rows-differ-from-table-model"
+                acc.violation({"kind": kind, "detail": {**facts, "exception": repr(exc)[:200], "rows_got": len(got) if got else None}, "facts": facts, "case": {"large": [ncols, nrows], "tier": tier}})
+    acc.sample({"family": "large tables", "shapes": [[1, 800], [3, 300]]})
+
+
 def shards(tier):
     b = bounds(tier)
     specs = list(tables(b))
     n = 64
-    return [{"tier": tier, "part": i, "of": n} for i in range(n)]
+    return [{"tier": tier, "part": i, "of": n} for i in range(n)] + [{"tier": tier, "large": True}]
 
 
 def run_shard(params, acc):
     from puresnmp import PyWrapper
 
+    if params.get("large"):
+        run_large(acc, params["tier"])
+        return
     b = bounds(params["tier"])
     client, _ = world.make_client(creds(), lambda p: b"")
     w = PyWrapper(client)
@@ -190,6 +225,17 @@ def run_shard(params, acc):
 def replay(case):
     from puresnmp import PyWrapper
 
+    if "large" in case:
+        class A:
+            def __init__(self):
+                self.v = []
+            def count(self, **k): pass
+            def outcome(self, *a, **k): pass
+            def sample(self, *a, **k): pass
+            def violation(self, v): self.v.append(v)
+        a = A()
+        run_large(a, case.get("tier", "quick"))
+        return a.v
     b = bounds(case.get("tier", "thorough"))
     client, _ = world.make_client(creds(), lambda p: b"")
     w = PyWrapper(client)
